@@ -1,15 +1,35 @@
 """C18 -- small molecules survive MOL/SDF files and the RDKit bridge.
 
-No function of ctab.py / sdf.py / the RDKit interface is proved in this build
-(fixed-column string formatting of floats; RDKit C++ objects).  The contracts
-are checked at run time in a labelled BOUNDED stand-in (bounded/C18.py)."""
-from pyvc.api import bounded_via_script
+Only the version predicate of ctab.py is under contract (`_is_v2000_compatible`:
+V2000 exactly when both counts fit the three-digit columns); the writers and
+readers (fixed-column string formatting of floats) and the RDKit interface
+(C++ objects) are not proved.  The property's contracts are checked at run time
+in a labelled BOUNDED stand-in (bounded/C18.py)."""
+import z3
+from pyvc.api import bounded_via_script, Case, sym_int, iff
+from pyvc.core import zbool
 
 PROPERTY = "C18"
-CASES = []
-MIN_OBLIGATIONS = 0
+CTAB = "structure/io/mol/ctab.py"
+
+
+def _setup_counts(I):
+    na, nb = sym_int(I, "n_atoms", 0, 2 ** 40), sym_int(I, "n_bonds", 0, 2 ** 40)
+    I.ghost["counts"] = (na, nb)
+    return {"args": [na, nb], "ghost": {"n_atoms": na, "n_bonds": nb}}
+
+
+def _ens_counts(I, env):
+    na, nb = I.ghost["counts"]
+    res = env.vars["result"]
+    fits = z3.And(na <= 999, nb <= 999)          # what a 3-character count column can hold
+    return [("v2000_iff_counts_fit_three_digits", iff(res if isinstance(res, bool) else zbool(res), fits))]
+
+
+CASES = [Case(CTAB + "::_is_v2000_compatible", "", setup=_setup_counts, ensures=[("version", _ens_counts)], overflow=False)]
+MIN_OBLIGATIONS = 1
 ASSUMPTIONS = ["bounded: molecules of 1..4 atoms over pools of elements, charges -4..4, every BondType, boundary coordinates; V2000 / V3000 / "
                "automatic version; 1000-atom chain; SDF records with six metadata key shapes; RDKit round trip for 1..3 models"]
-UNVERIFIED = ["everything in io/mol and interface/rdkit is unproved"]
+UNVERIFIED = ["everything in io/mol and interface/rdkit except the version predicate _is_v2000_compatible is unproved"]
 EXPLANATION = "bounded run-time check of the C18 contracts through the public API; not a proof"
 bounded = bounded_via_script("C18")
